@@ -298,6 +298,7 @@ func (g *Gen) genStructKey(depth int, keyable bool) *Node {
 	var sf []reflect.StructField
 	for i := 0; i < nf; i++ {
 		f := Field{K: FPlain}
+		inlinedEmb := false
 		c := r.Intn(10)
 		switch {
 		case keyable:
@@ -338,6 +339,13 @@ func (g *Gen) genStructKey(depth int, keyable bool) *Node {
 				f.N = &Node{K: KPtr, Elem: e, T: reflect.PointerTo(e.T), Depth: depth + 1}
 				g.feat("embeddedptr")
 			}
+			if r.Chance(1, 3) {
+				// `inlined` on an embedded field: in the binary form it is an ordinary field (own type code written, a nil
+				// pointer rejected like any other); the Go field stays anonymous
+				f.K = FPlain
+				inlinedEmb = true
+				g.feat("embedded-inlined")
+			}
 		default:
 			f.N = g.genNode(depth+1, false)
 		}
@@ -374,9 +382,12 @@ func (g *Gen) genStructKey(depth int, keyable bool) *Node {
 				tag += ",optional"
 			}
 		}
+		if inlinedEmb {
+			tag += ",inlined"
+		}
 		name := fmt.Sprintf("F%d", i)
 		sfield := reflect.StructField{Name: name, Type: f.N.T, Tag: reflect.StructTag(`serix:"` + tag + `"`)}
-		if f.K == FEmb || f.K == FEmbPtr {
+		if f.K == FEmb || f.K == FEmbPtr || inlinedEmb {
 			sfield.Name = fmt.Sprintf("E%d", i)
 			sfield.Anonymous = true
 		}
